@@ -161,7 +161,7 @@ fn cmd_term(c: &Command) -> Option<String> {
         Command::DbSize => "DbSize".into(),
         Command::Scan { cursor, pattern, count } => format!("(Scan {} {} {})", cursor, copt(pattern, |p| hk(p)), copt(count, |c| c.to_string())),
         Command::Del(ks) => format!("(Del {})", clist(ks.iter(), |k| hk(k))),
-        Command::Exists(ks) => format!("(Exists {})", clist(ks.iter(), |k| hk(k))),
+        Command::Exists(ks) => format!("(Exs {})", clist(ks.iter(), |k| hk(k))),
         Command::Get(k) => op("Get", &[k], "A0".into()),
         Command::Set { key, value, ex: None, px: None, exat: None, pxat: None, nx: false, xx: false, get: false, keepttl: false } => op("Set", &[key], ab(value)),
         Command::SetNx(k, v) => op("SetNx", &[k], ab(v)),
